@@ -168,7 +168,12 @@ def random_schedule(rng):
             code = rng.choice([1, 1, 5])
             ckq = rng.choice([0, 0, 1])
             szx = rng.choice([0, 1, 2, 4, 6])
-            nums = rng.choice([[0, 1, 2], [0, 1, 2, 3, 4], [0, 0, 1], [1], [0, 2, 1], [0, 5], [0, 1, 0, 1], [0, 1, 1]])
+            nums = rng.choice([[0, 1, 2], [0, 1, 2, 3, 4], [0, 0, 1], [1], [0, 2, 1], [0, 5], [0, 1, 0, 1], [0, 1, 1],
+                               # a request without Block2 option: the server chunks on its own account when the
+                               # rendering exceeds the maximum payload size (block 0 at size exponent 6), else answers whole
+                               ["plain"], ["plain", 1, 2], ["plain", 1, 0, 1], ["plain", 3]])
+            if nums[0] == "plain":
+                szx = 6
             for num in nums:
                 plan.append(("b2", r, code, ckq, szx if rng.random() < 0.85 else max(0, szx - 1), num, 0, 0))
     # interleave a little
@@ -189,6 +194,8 @@ def random_schedule(rng):
         else:
             steps.append({"at": t, "do": "rx", "r": r, "ty": rng.choice(["NON", "CON"]), "code": code, "mid": (300 + n) & 0xFFFF,
                           "tok": tok, "path": ["h", "2"], "ckq": ckq, "b2": [num, 0, szx]})
+            if num == "plain":
+                del steps[-1]["b2"]
     trig = [{"on": {"tx": {"ty": "CON", "cls": "resp", "nth": k}}, "delay": 2, "rx": {"ty": "ACK", "code": 0, "mid": "same"}} for k in range(1, 12)]
     return {"tuning": {"EMPTY_ACK_DELAY": 0.125}, "mid0": rng.randint(0, 65535), "tok0": 5, "nremotes": 4,
             "handlers": handlers, "steps": steps, "triggers": trig, "horizon": 300 * 1024}
